@@ -115,6 +115,16 @@ P = {
              note="Trusted: TLC; encoding/json rejects non-JSON bytes before libovsdb code runs, so trees suffice. Long or deeply nested inputs and coverage-guided "
                   "byte fuzzing are outside this technique (bounded exhaustive enumeration instead).",
              tech="TLA+ grammar with a corruption operator (Wire.tla) + exhaustive enumerate-and-replay on decoders, engine and server + TLC trace validation"),
+ "C20": dict(engine="tla-wire", cat="model_checking", ref="6 C20",
+             text="MC_Gen.tla spreads every column type of Mapper.tla (each atomic type as key in the 1..1, 0..1, 0..n, 1..n and bounded shapes, maps, enum columns "
+                  "of string, integer, real and boolean type, optional and multi-valued) over tables whose names have underscores, lower case or initialisms and "
+                  "columns named like Go keywords, and states the Go type of every field (NativeType). Per (schema, extended, enum types): the generator runs "
+                  "twice (byte-identical), the package is built in a scratch module against /repo, loaded with NewDatabaseModel(schema, FullDatabaseModel()), every "
+                  "field's reflect type is compared with the specification, and the generated DeepCopy / Equals are compared with model.Clone / model.Equal "
+                  "(equal copy, no shared memory, models differing in one field, zero against filled, nil against empty); TraceGen.tla judges.",
+             note="Trusted: TLC, the Go toolchain. 'Compiles' and 'identical from run to run' are direct observations; the specification contributes the schema space, "
+                  "the expected field types and the copy/equality laws.",
+             tech="TLA+ schema space and type function (MC_Gen.tla on Mapper.tla) + generate/build/load replay + TLC trace validation"),
  "C18": dict(engine="tla-locks", cat="model_checking", ref="6 C18",
              text="Locks.tla models the client's mutexes (Go RWMutex semantics incl. writer preference) and each call as a sequence of lock steps; TLC "
                   "checks that no interleaving deadlocks and nothing keeps a lock, for the documented protocol (and refutes the three protocols of the "
